@@ -5,7 +5,9 @@ import (
 
 	"golang.org/x/tools/go/ssa"
 
+	"sheensverif/internal/prog"
 	"sheensverif/internal/pta"
+	"sheensverif/internal/ssau"
 )
 
 func init() { Registry["C06"] = C06; Registry["C03"] = C03 }
@@ -91,9 +93,11 @@ func countReachedWrites(a *pta.Analysis) int {
 
 // C03: Match is pure.
 func C03(c *Ctx) {
-	c.R.Explanation = "Decides structural necessary conditions of 'matching is a pure function': (R1) no store/map update/delete/copy/append reachable from Matcher.Match, Matcher.Matches or match.Match may target the pattern, the fact, the given bindings or a package-level variable (this is also the structural part of safe concurrent matching); (R2) no map in the returned slice is the given bindings map; (R3) no loop ranging directly over a Go map has early exits of two different outcome classes (error vs plain no-match), which would make the outcome depend on iteration order. Not decided: determinism of the result multiset in general."
+	c.R.Explanation = "Decides structural necessary conditions of 'matching is a pure function': (R1) no store/map update/delete/copy/append reachable from Matcher.Match, Matcher.Matches or match.Match may target the pattern, the fact, the given bindings or a package-level variable (this is also the structural part of safe concurrent matching); (R2) no map in the returned slice is the given bindings map; (R3) no loop ranging directly over a Go map has early exits of two different outcome classes (error vs plain no-match), which would make the outcome depend on iteration order. (R5) bindings extended inside a loop over alternatives live in storage created in that iteration, so returned sets are independent maps. The matcher value itself is a protected root too (no hidden state, e.g. a memo table). Not decided: determinism of the result multiset in general."
 	c.R.Rule("C03-R1", "E1", "inputs untouched: no write to pattern, fact, bindings or globals in Match's closure", 8)
 	c.R.Rule("C03-R2", "E1", "returned binding sets never alias the given bindings", 3)
+	c.R.Rule("C03-R3", "E3", "no map range with exits of two outcome classes (error vs no match)", 3)
+	c.R.Rule("C03-R5", "E5+E3", "results are independent: alternatives never share writable bindings", 2)
 	mm := c.fn("match", "Matcher", "Match")
 	ms := c.fn("match", "Matcher", "Matches")
 	m := c.fn("match", "", "Match")
@@ -104,6 +108,10 @@ func C03(c *Ctx) {
 	for _, f := range []*ssa.Function{mm, ms, m} {
 		r := map[int]pta.RootSpec{}
 		for i, p := range f.Params {
+			if ssau.TypeIs(p.Type(), prog.Abs("match"), "Matcher") {
+				r[i] = pta.RootSpec{Name: "matcher", Levels: 3}
+				continue
+			}
 			switch p.Name() {
 			case "pattern", "fact":
 				r[i] = pta.RootSpec{Name: p.Name(), Levels: 2}
@@ -116,7 +124,7 @@ func C03(c *Ctx) {
 		}
 		roots[f] = r
 	}
-	a := pta.New(pta.Config{Prog: c.P, EnginePkgs: map[string]bool{"match": true}, Entries: []*ssa.Function{mm, ms, m}, Roots: roots})
+	a := pta.New(pta.Config{Prog: c.P, EnginePkgs: map[string]bool{"match": true}, Entries: []*ssa.Function{mm, ms, m}, Roots: roots, External: stdExternal})
 	a.Run()
 	c.noteAnalysis(a)
 	c.reportEffects("C03-R1", a, nil)
